@@ -294,9 +294,41 @@ def sample(ctx, budget=1.0, hint=None, broken=None):
         t = float(end)
         travel = dirn if end == 0 else -dirn      # direction of travel from inside the interval
         desc = repr(seg)
+        via_path = ''
+        if r.random() < 0.35:
+            # the same segment as a member of a path that is moved as a whole (translation by a dyadic vector / doubling keep the
+            # coordinates exact and the direction of travel): its neighbour starts exactly at, a rounding error away from, or clearly
+            # away from its end
+            gap = r.choice([0, 0, 2.0 ** -30, 1e-9, -3e-10, 2.0 ** -40 * (1 + 1j), 0.5])
+            e_ = seg.end + gap
+            nxt = P.Line(e_, e_ + complex(r.choice([1, -1, 2]), r.choice([1, -2, 0.5])))
+            prv = P.Line(seg.start - gap - complex(1, 0.5), seg.start - gap)
+            members, idx = ([seg, nxt], 0) if end == 1 else ([prv, seg], 1)
+            opn, ops_ = r.choice([('translated', '.translated((2.5-0.75j))'), ('scaled', '.scaled(2.0)'), ('translated twice', '.translated((4+2j)).translated((-4-2j))'),
+                                  ('rotated', '.rotated(90, origin=0j)'), ('rotated', '.rotated(180, origin=0j)')])
+            if opn == 'rotated' and not exact:
+                opn, ops_ = 'translated', '.translated((2.5-0.75j))'
+            desc = 'Path(%s)%s[%d]' % (', '.join('svgpathtools.%r' % (m,) for m in members), ops_, idx)
+            try:
+                with warnings.catch_warnings():
+                    warnings.simplefilter('ignore')
+                    seg = eval('svgpathtools.' + desc, {'svgpathtools': spt})
+            except Exception as e:
+                fail('Path.%s raises' % opn, 'a path-level similarity raised', {'seg': desc}, repr(e)[:200], 'a path', 'svgpathtools.' + desc)
+                continue
+            if 'rotated(90' in ops_:
+                travel = travel * 1j
+            elif 'rotated(180' in ops_:
+                travel = -travel
+            if opn == 'rotated':
+                # numpy scalars from the rotation: the exact-zero test of the singular branch needs the coincidence to survive
+                bp_ = seg.bpoints()
+                if not ((end == 1 and bp_[-1] == bp_[-2]) or (end == 0 and bp_[0] == bp_[1])):
+                    continue
+            via_path = opn + ('/near-joint' if gap not in (0, 0.5) else '')
         n_eval += 1
         quadrant = ('right' if travel.real > 1e-9 else 'left' if travel.real < -1e-9 else 'vertical')
-        nontriv.add(('singular', kind, end, quadrant, exact))
+        nontriv.add(('singular', kind, end, quadrant, exact, via_path))
         unstable = (end == 1 and not exact)     # finding F28: float evaluation of g(1) is not exactly 0
         with warnings.catch_warnings():
             warnings.simplefilter('ignore')
@@ -319,7 +351,7 @@ def sample(ctx, budget=1.0, hint=None, broken=None):
     return {'evaluations': n_eval, 'distinct_nontrivial': len(nontriv), 'failures': fails, 'samples': samples,
             'rule': 'random Line/Quadratic/Cubic/Arc (elliptical and circular) at scales 1e-2..1e3, t at ends and inside; tangent against derivative and finite '
                     'differences, normal, curvature against the formula, 1/r and finite differences of point(); rotation/translation/scaling/reversal laws; '
-                    'Bezier segments whose first or last two control points coincide heading into every quadrant. distinct = distinct (kind, scale) / (singular, kind, end, half-plane)'}
+                    'Bezier segments whose first or last two control points coincide heading into every quadrant, 35% of them taken out of a two-segment path (neighbour touching exactly, a rounding error away, or apart) that was translated / doubled / turned by 90 or 180 degrees as a whole. distinct = distinct (kind, scale) / (singular, kind, end, half-plane)'}
 
 
 def replay(spt, f):
